@@ -85,6 +85,14 @@ func program(dim int, ax, ay axisG, law bool) string {
 	return "l." + call
 }
 
+// postProgram: the binning result with appends to its own lists in between.
+func postProgram(dim int, ax, ay axisG) string {
+	if dim == 2 {
+		return "let b=l." + bin2Call(ax, ay) + "; let u=b.values.append(7); let d=b.yDescr.append(7); let r=b.values.map(e->e.row.append(7)).eval(); let w=b.values.append(8); b"
+	}
+	return "let b=l." + binCall(ax) + "; let u=b.values.append(7); let d=b.descr.append(7); let w=b.values.append(8); b"
+}
+
 // run evaluates src with argument l; a Go panic of the library is turned into an error.
 func (h *harness) run(src string, l value.Value) (res value.Value, err error) {
 	f, ok := h.progs[src]
@@ -338,6 +346,11 @@ type kase struct {
 	// Prior: before the case is evaluated, the same program runs on the same records with one record whose
 	// field Field is a string inserted at position At; that evaluation fails, the case itself must not notice
 	Prior *prior
+	// Post: the result is bound to a local, its value and description lists are appended to (the appended
+	// lists are dropped), then the result itself is returned: it must be what it was
+	Post bool
+	// Before: another grid with the same start and size but another count is binned first (same records)
+	Before *axisG
 }
 
 type prior struct {
@@ -392,6 +405,13 @@ func (k *kase) repro() map[string]any {
 	if k.Prior != nil {
 		m["prior_failing_evaluation"] = map[string]any{"at": k.Prior.At, "field": k.Prior.Field}
 	}
+	if k.Post {
+		m["program"] = postProgram(k.Dim, k.AX, k.AY)
+		m["post_append"] = true
+	}
+	if k.Before != nil {
+		m["binned_before_on"] = []any{k.Before.Start, k.Before.Size, k.Before.Count}
+	}
 	return m
 }
 
@@ -417,6 +437,16 @@ func (v *verdict) obs() string {
 func (h *harness) evalWhole(k *kase, ax, ay *axisRef) verdict {
 	var v verdict
 	src := h.program(k.Dim, k.AX, k.AY, false)
+	if k.Post {
+		src = postProgram(k.Dim, k.AX, k.AY)
+	}
+	if k.Before != nil {
+		// the same records on the other grid first: 1-d, and as the y axis of a 2-d binning
+		h.run(h.program(1, *k.Before, axisG{}, false), listVal(1, k.Recs))
+		if k.Dim == 2 {
+			h.run(h.program(2, k.AX, *k.Before, false), listVal(2, k.Recs))
+		}
+	}
 	if k.Prior != nil {
 		if _, err := h.run(src, k.failingList()); err == nil {
 			v.priorAccepted = true
@@ -941,6 +971,55 @@ func run(ctx *bex.Ctx) {
 	}
 	ctx.SpaceDone("45 grids x all lists of <= 2 records over the core pool x weight {1,0.5,-2}: first the same binning of the same records with a record whose x (or w) is a string inserted at every position (it fails after the records in front have been counted), then the binning of the records themselves, judged like every whole-list case")
 
+	// (4c) results whose own lists are appended to; grids that share start and size binned one after the other
+	ctx.Space("results-appended-to-and-grid-sequences")
+	c.idx = 0
+	seqCounts := []int{0, 1, 2, 3, 64}
+	for gi, g := range all {
+		a := c.ref(g)
+		pool := records1(corePool(a), []float64{1})
+		eachList(len(pool), 0, 2, func(ix []int) bool {
+			if c.next() {
+				c.doWhole(&kase{Space: "results-appended-to-and-grid-sequences", Dim: 1, AX: g, Recs: pick(pool, ix), Post: true}, 10, gi, ix)
+			}
+			for _, cb := range seqCounts {
+				if cb == g.Count {
+					continue
+				}
+				if c.next() {
+					before := axisG{g.Start, g.Size, cb}
+					c.doWhole(&kase{Space: "results-appended-to-and-grid-sequences", Dim: 1, AX: g, Recs: pick(pool, ix), Before: &before}, 10, gi, append(append([]int{}, ix...), 1000+cb))
+				}
+			}
+			return !c.stop
+		})
+	}
+	for gi, gx := range few {
+		for gj, gy := range few {
+			ax, ay := c.ref(gx), c.ref(gy)
+			pool := records2(litePool(ax), litePool(ay), []float64{1})
+			eachList(len(pool), 0, 1, func(ix []int) bool {
+				if c.next() {
+					c.doWhole(&kase{Space: "results-appended-to-and-grid-sequences", Dim: 2, AX: gx, AY: gy, Recs: pick(pool, ix), Post: true}, 11, gi*len(few)+gj, ix)
+				}
+				for _, cb := range []int{0, 1, 3, 5} {
+					if cb == gy.Count {
+						continue
+					}
+					if c.next() {
+						before := axisG{gy.Start, gy.Size, cb}
+						c.doWhole(&kase{Space: "results-appended-to-and-grid-sequences", Dim: 2, AX: gx, AY: gy, Recs: pick(pool, ix), Before: &before}, 11, gi*len(few)+gj, append(append([]int{}, ix...), 1000+cb))
+					}
+				}
+				return !c.stop
+			})
+			if c.stop {
+				break
+			}
+		}
+	}
+	ctx.SpaceDone("45 grids x lists of <= 2 records (2-d: 144 grid pairs x <= 1 record): (a) the result bound to a local, values / descr / yDescr / rows appended to, then the result itself judged like every whole-list case; (b) the same records binned first on a grid with the same start and size but each other count of {0,1,2,3,64} (2-d: the y axis, 1-d and inside a 2-d binning), then the case itself")
+
 	// (5) 2-d, one record, every pair of axis grids
 	ctx.Space("2d-single")
 	c.idx = 0
@@ -1085,6 +1164,13 @@ func replay(repro map[string]any) (string, bool) {
 	k.Space, _ = repro["space"].(string)
 	if k.Dim == 2 {
 		k.AY = toAxis(repro["y_axis"])
+	}
+	if b, ok := repro["post_append"].(bool); ok {
+		k.Post = b
+	}
+	if _, ok := repro["binned_before_on"]; ok {
+		g := toAxis(repro["binned_before_on"])
+		k.Before = &g
 	}
 	if pm, ok := repro["prior_failing_evaluation"].(map[string]any); ok {
 		f, _ := pm["field"].(string)
